@@ -907,10 +907,11 @@ breaks this obligation even when no regenerated *expression* changes. -/
 theorem code_structure_as_modelled :
     F3.Gen.SkelPoll.skelSubscriberPoll = F3.SkelTie.SkelPoll.skelSubscriberPollExpected ∧
     F3.Gen.SkelPoll.skelCatchUp = F3.SkelTie.SkelPoll.skelCatchUpExpected ∧
+    F3.Gen.SkelPoll.skelPredictorUpdate = F3.SkelTie.SkelPoll.skelPredictorUpdateExpected ∧
     F3.Gen.SkelCertX.skelClientRequest = F3.SkelTie.SkelCertX.skelClientRequestExpected ∧
     F3.Gen.SkelCertX.skelPollerPoll = F3.SkelTie.SkelCertX.skelPollerPollExpected ∧
     F3.Gen.SkelCertX.skelNewPoller = F3.SkelTie.SkelCertX.skelNewPollerExpected :=
-  ⟨F3.SkelTie.SkelPoll.skelSubscriberPoll_expected, F3.SkelTie.SkelPoll.skelCatchUp_expected, F3.SkelTie.SkelCertX.skelClientRequest_expected, F3.SkelTie.SkelCertX.skelPollerPoll_expected, F3.SkelTie.SkelCertX.skelNewPoller_expected⟩
+  ⟨F3.SkelTie.SkelPoll.skelSubscriberPoll_expected, F3.SkelTie.SkelPoll.skelCatchUp_expected, F3.SkelTie.SkelPoll.skelPredictorUpdate_expected, F3.SkelTie.SkelCertX.skelClientRequest_expected, F3.SkelTie.SkelCertX.skelPollerPoll_expected, F3.SkelTie.SkelCertX.skelNewPoller_expected⟩
 
 end Skeletons
 end F3.Props.C20
